@@ -18,7 +18,7 @@ RULE = ("(i) identities curl(grad f)=0 and div(curl F)=0 with generic undefined 
         "non-trivial = field depends on all three coordinates; distinct = distinct field.")
 ASSUMPTIONS = ["vf/geom_ref.py local bases; sympy.diff for the Cartesian reference operators"]
 N = {"quick": 32, "thorough": 416}
-MIN_REACH = {"quick": {"identity": 6, "gradient_compared": 100, "divergence_compared": 100, "curl_compared": 100, "padding": 60, "refusal": 3},
+MIN_REACH = {"quick": {"identity": 6, "gradient_compared": 100, "divergence_compared": 100, "curl_compared": 100, "padding": 60, "refusal": 3, "sparse_compared": 500, "uniform_local_components": 60},
              "thorough": {"identity": 6, "gradient_compared": 1500, "divergence_compared": 1500, "curl_compared": 1500}}
 SHARD_TIMEOUT = {"quick": 900, "thorough": 3000}
 
@@ -241,6 +241,128 @@ def field_cases(r, rec, nfields):
             rec.sample(case)
 
 
+def sparse_cases(r, rec, nfields):
+    """fields given directly by their local components, most of them *sparse*: uniform components, components depending on a
+    single coordinate, absent coordinates - the inputs on which a shortcut ('nothing to differentiate') or a swapped term of
+    a curvilinear formula shows. Reference: the Cartesian vector F_i(q(p)) e_i(q(p)) built with own transforms, differentiated
+    numerically (mpmath, 30 digits) in Cartesian space and projected on the local basis."""
+    import mpmath as mp
+    import sympy
+    from symplyphysics import CoordinateSystem, Vector
+    from symplyphysics.core.fields.scalar_field import ScalarField
+    from symplyphysics.core.fields.vector_field import VectorField
+    from symplyphysics.core.fields.operators import gradient_operator, divergence_operator, curl_operator
+    S = CoordinateSystem.System
+    k1 = sympy.Symbol("k_1", real=True)
+
+    def to_curv(sysname, X):
+        x_, y_, z_ = X
+        if sysname == "CARTESIAN":
+            return (x_, y_, z_)
+        if sysname == "CYLINDRICAL":
+            return (mp.sqrt(x_ * x_ + y_ * y_), mp.atan2(y_, x_), z_)
+        rr = mp.sqrt(x_ * x_ + y_ * y_ + z_ * z_)
+        return (rr, mp.atan2(y_, x_), mp.acos(z_ / rr))   # (r, azimuth, polar): the order of this core
+
+    def basis_at(sysname, q):
+        if sysname == "CARTESIAN":
+            return ((1, 0, 0), (0, 1, 0), (0, 0, 1))
+        az = q[1]
+        if sysname == "CYLINDRICAL":
+            return ((mp.cos(az), mp.sin(az), 0), (-mp.sin(az), mp.cos(az), 0), (0, 0, 1))
+        pol = q[2]
+        return ((mp.sin(pol) * mp.cos(az), mp.sin(pol) * mp.sin(az), mp.cos(pol)), (-mp.sin(az), mp.cos(az), 0),
+                (mp.cos(pol) * mp.cos(az), mp.cos(pol) * mp.sin(az), -mp.sin(pol)))
+
+    for _ in range(nfields):
+        rec.checkpoint()
+        for sysname in ("CYLINDRICAL", "SPHERICAL", "CARTESIAN"):
+            cs = CoordinateSystem(getattr(S, sysname))
+            b = cs.coord_system.base_scalars()
+            pool = [sympy.Integer(1), sympy.Integer(-2), k1, sympy.Rational(3, 2), b[0], b[1], b[2], b[0] ** 2, sympy.sin(b[1]), sympy.cos(b[2]),
+                    1 / b[0], b[0] * sympy.sin(b[2]), k1 * b[2], b[1] * b[2], sympy.Integer(0)]
+            style = r.choice(["uniform", "single-coordinate", "mixed", "mixed"])
+            if style == "uniform":
+                Fs = [r.choice([sympy.Integer(1), sympy.Integer(-2), k1, sympy.Rational(3, 2), sympy.Integer(0)]) for _ in range(3)]
+                if all(c == 0 for c in Fs):
+                    Fs[0] = k1
+            elif style == "single-coordinate":
+                c_ = r.choice(b)
+                Fs = [r.choice([c_, c_ ** 2, sympy.sin(c_), 1 + c_, k1 * c_, sympy.Integer(1)]) for _ in range(3)]
+            else:
+                Fs = [r.choice(pool) * r.choice([1, 1, b[r.randrange(3)]]) for _ in range(3)]
+            phi_s = r.choice(pool[4:14]) + r.choice([0, k1, b[r.randrange(3)]])
+            kval = mp.mpf(r.randint(5, 25)) / 10
+            ncomp = r.choice([3, 3, 3, 2, 1])
+            case = {"system": sysname, "local_components": [str(c) for c in Fs[:ncomp]], "scalar_field": str(phi_s), "style": style, "k_1": str(kval)}
+            rec.case(case)
+            rec.hit("sparse_fields")
+            if style == "uniform":
+                rec.hit("uniform_local_components")
+            Fn = [sympy.lambdify(list(b) + [k1], c, "mpmath") for c in (Fs[:ncomp] + [sympy.Integer(0)] * (3 - ncomp))]
+            phin = sympy.lambdify(list(b) + [k1], phi_s, "mpmath")
+            try:
+                with harness.Watchdog(120):
+                    vfield = VectorField.from_vector(Vector(Fs[:ncomp], cs))
+                    d_lib = sympy.sympify(divergence_operator(vfield))
+                    c_lib = curl_operator(vfield).apply_to_basis()
+                    g_lib = gradient_operator(ScalarField.from_expression(phi_s, cs))
+            except TimeoutError:
+                rec.inconc("watchdog in operators")
+                continue
+            except Exception as e:  # pylint: disable=broad-except
+                rec.violation(f"operator-raises:{sysname}:{type(e).__name__}", f"operator raised {type(e).__name__}: {str(e)[:100]}", case)
+                continue
+
+            def Fcart(X, i):
+                q = to_curv(sysname, X)
+                bas = basis_at(sysname, q)
+                return sum(Fn[j](*q, kval) * bas[j][i] for j in range(3))
+
+            def phic(X):
+                return phin(*to_curv(sysname, X), kval)
+            for _p in range(2):
+                if sysname == "CARTESIAN":
+                    q0 = (r.uniform(-2, 2), r.uniform(-2, 2), r.uniform(-2, 2))
+                elif sysname == "CYLINDRICAL":
+                    q0 = (r.uniform(0.5, 3), r.uniform(-2.8, 2.8), r.uniform(-2, 2))
+                else:
+                    q0 = (r.uniform(0.5, 3), r.uniform(-2.8, 2.8), r.uniform(0.4, 2.7))
+                X0 = {"CARTESIAN": lambda q: q, "CYLINDRICAL": lambda q: G.cyl_to_cart(*q), "SPHERICAL": lambda q: G.sph_to_cart(*q)}[sysname](q0)
+                X0 = tuple(mp.mpf(v) for v in X0)
+                with mp.workdps(30):
+                    def d(f, j):
+                        order = [0, 0, 0]
+                        order[j] = 1
+                        return mp.diff(lambda x_, y_, z_: f((x_, y_, z_)), X0, tuple(order), h=mp.mpf("1e-8"))
+                    J = [[d(lambda X, i=i: Fcart(X, i), j) for j in range(3)] for i in range(3)]   # J[i][j] = dF_i/dx_j
+                    want_d = J[0][0] + J[1][1] + J[2][2]
+                    want_c = (J[2][1] - J[1][2], J[0][2] - J[2][0], J[1][0] - J[0][1])
+                    want_g = tuple(d(phic, j) for j in range(3))
+                    bas = basis_at(sysname, tuple(mp.mpf(v) for v in q0))
+                    proj = lambda vec: [sum(vec[i] * bas[j][i] for i in range(3)) for j in range(3)]
+                    vals = dict(zip(b, q0))
+                    vals[k1] = kval
+                    got_d = mp.mpf(str(sympy.N(d_lib.subs(vals), 25)))
+                    got_c = [mp.mpf(str(sympy.N(sympy.sympify(v).subs(vals), 25))) for v in c_lib.components]
+                    got_c += [mp.mpf(0)] * (3 - len(got_c))
+                    got_g = [mp.mpf(str(sympy.N(sympy.sympify(v).subs(vals), 25))) for v in g_lib.components]
+                    got_g += [mp.mpf(0)] * (3 - len(got_g))
+                    cl = lambda a_, w_: abs(a_ - w_) <= mp.mpf("1e-6") * max(1, abs(a_), abs(w_))
+                    rec.hit("sparse_compared")
+                    if not cl(got_d, want_d):
+                        rec.violation(f"divergence:{sysname}:sparse", f"divergence of the field with local components {case['local_components']} in {sysname} at {q0}: library {mp.nstr(got_d, 10)}, numeric Cartesian reference {mp.nstr(want_d, 10)}", case)
+                        break
+                    bad = [i for i, (a_, w_) in enumerate(zip(got_c, proj(want_c))) if not cl(a_, w_)]
+                    if bad:
+                        rec.violation(f"curl:{sysname}:{bad[0]}:sparse", f"curl[{bad[0]}] of the field with local components {case['local_components']} in {sysname} at {q0}: library {mp.nstr(got_c[bad[0]], 10)}, numeric Cartesian reference {mp.nstr(proj(want_c)[bad[0]], 10)}", case)
+                        break
+                    bad = [i for i, (a_, w_) in enumerate(zip(got_g, proj(want_g))) if not cl(a_, w_)]
+                    if bad:
+                        rec.violation(f"gradient:{sysname}:{bad[0]}:sparse", f"gradient[{bad[0]}] of {phi_s} in {sysname} at {q0}: library {mp.nstr(got_g[bad[0]], 10)}, numeric Cartesian reference {mp.nstr(proj(want_g)[bad[0]], 10)}", case)
+                        break
+
+
 def work(spec, rec):
     r = harness.rng_for("C12", spec["seed"], spec["_label"])
     if spec["kind"] == "identities":
@@ -251,6 +373,7 @@ def work(spec, rec):
             rec.inconc("watchdog in symbolic identities", {"system": spec["system"]})
         return
     field_cases(r, rec, spec["fields"])
+    sparse_cases(r, rec, spec["fields"] * 4)
 
 
 def replay(case, rec):
